@@ -291,3 +291,16 @@ class SymDict(dict):
             kk = self._find(k)
             return default if kk is None else dict.__getitem__(self, kk)
         return dict.get(self, k, default)
+
+
+def field_equals(ctx, field, given):
+    """does the text `field` (taken from an emitted record) equal the argument `given`?  -> True / False / SBool.
+    A prefix slice of an abstract string equals the string exactly when the string is not longer than the slice."""
+    if not getattr(ctx, "symbolic", False) or not isinstance(given, SAbsStr):
+        return field == str.__str__(given)
+    if field == str.__str__(given):
+        return True
+    obj = ctx.tokens.get(field, (None,))[0]
+    if isinstance(obj, SAbsStr) and obj.parent is given and hasattr(obj, "stop"):
+        return core.SBool(ctx, given.L <= obj.stop)
+    return False
